@@ -599,7 +599,15 @@ class KernFeatureWriter(BaseFeatureWriter):
                     spacing.append(mark)
             return spacing
 
-        return [mark for mark in marks if self.context.font[mark].width != 0]
+        # look at the pre-processed glyph (whose advance ends up in the font) when we
+        # have it, not at the unfiltered source glyph
+        glyphSet = self.context.glyphSet
+        return [
+            mark
+            for mark in marks
+            if (glyphSet[mark] if mark in glyphSet else self.context.font[mark]).width
+            != 0
+        ]
 
     def _makeKerningLookup(self, name, ignoreMarks=True):
         lookup = ast.LookupBlock(name)
